@@ -119,7 +119,10 @@ def render_data_unit(src_mode, alpha_kind, pil_source=False):
         SRC = ("source",)
         img0, st = mk(eng, st, SRC, src_mode, (sw, sh), "file")
         is_source = z3.Bool("img_is_the_caller_supplied_source") if False else False
-        self_ = st.new("BlockImage", {"_is_animated": animated, "_seek_position": seekpos, "_source": img0 if pil_source else "/path/of/the/source/file"})
+        IS = ctx.ns("term_image.image.common").d["ImageSource"]
+        eng.genv["ImageSource"] = IS
+        self_ = st.new("BlockImage", {"_is_animated": animated, "_seek_position": seekpos, "_source": img0 if pil_source else "/path/of/the/source/file",
+                                      "_source_type": IS.d["PIL_IMAGE"] if pil_source else IS.d["FILE_PATH"]})
         eng.methods[("BlockImage", "_get_render_size")] = lambda e, s, recv, a, k: [((tw, th), s)]
         close_image = inline(ctx.fn(COMMON, "BaseImage._close_image"), eng)
         eng.methods[("BlockImage", "_close_image")] = lambda e, s, recv, a, k: e.call(close_image, (recv,) + tuple(a), k, s)
